@@ -42,6 +42,9 @@ FIRST_TRY = {'C01': True, 'C02': True, 'C03': False, 'C04': True, 'C05': False, 
              'C10n': False, 'C11n': False, 'C12n': True, 'C13n': False, 'C14n': False, 'C15n': False, 'C16n': True, 'C17n': True,
              'C18n': False, 'C19n': True, 'C20n': False}
 REJECTED = {
+    'C18b': 'superseded: caught by C18 (send:Updates:under) until repair e4f0c24 moved the counting of sent UPDATEs into '
+            'write_tcp_thread() - the very function this change calls for the queued UPDATE - so the statistic is right again with the '
+            'change applied (confirmed by stepping through the scripted history queue-update, KEEPALIVE, KEEPALIVE on the changed tree)',
     'C18h': 'superseded: caught by C18 (send:Updates:over) until repair e4f0c24 moved the counting to write time; since then the '
             'change is consistent with the statistic and no longer a C18 violation',
     'C13c': 'not confirmed: the change only matters when dataReceived() is called again after the agent\'s own '
@@ -160,6 +163,9 @@ def main():
         meta['property'] = pid[:3]
         if pid in REJECTED:
             meta['rejected_by_verifier'] = REJECTED[pid]
+        if os.path.exists(os.path.join(d, 'patch.orig.diff')):
+            meta['patch_rebased'] = ('patch.diff was rebased onto the current tree because a later repair of the repository touched the '
+                                     'same lines; the sub-agent\'s original is kept as patch.orig.diff')
         meta['confirmed_by_verifier'] = {
             'ran': ['tools/try_seed.sh %s  (scratch copies of /repo under /tmp: demo on the clean copy; demo, unit tests and '
                     './check %s --tier quick with VERIF_REPO on the changed copy)' % (pid, pid[:3])],
